@@ -331,7 +331,9 @@ def do_add_bar(track, ref, S, i, via):
     return got
 
 
-CHORD_LISTS = [["C"], ["C", ["Am", "Dm"]], ["C", None], [None], [["Am", ["Dm", "C"]], None, "Dm"]]
+CHORD_LISTS = [["C"], ["C", ["Am", "Dm"]], ["C", None], [None], [["Am", ["Dm", "C"]], None, "Dm"],
+               # (product clause only) sub-lists that hold nothing -- no chord, no rest, no length -- and deeper nesting
+               ["C", [], "Dm"], [[], "C"], ["C", [[], "Am"]], [[]], [], ["C", [None, ["Am", None]]], [["C", "Dm", "Am"]]]
 
 
 def chord_content(leaf):
